@@ -153,6 +153,7 @@ func (s *c20plain) Value(ctx context.Context, t *dials.Type) (reflect.Value, err
 
 type c20plainWatcher struct {
 	c20plain
+	watchCtx context.Context
 	watched  bool
 	wa       dials.WatchArgs
 	t        *dials.Type
@@ -161,6 +162,7 @@ type c20plainWatcher struct {
 
 func (s *c20plainWatcher) Watch(ctx context.Context, t *dials.Type, wa dials.WatchArgs) error {
 	s.watched = true
+	s.watchCtx = ctx
 	s.wa = wa
 	s.t = t
 	return s.watchErr
@@ -236,6 +238,48 @@ func HarnessC20Blank() {
 		zzverif.Assert(e == nil && d.View().A == 77, "C20 an update from the inner watching source did not reach the view")
 	}
 	zzverif.Reached("c20-blank-end")
+}
+
+// HarnessC20BlankContexts: which context governs what in Blank.SetSource. The inner watcher is
+// started under the context dials handed the Blank (it outlives the SetSource call); the call
+// itself is bounded by the context passed to it (also when the monitor is already gone).
+func HarnessC20BlankContexts() {
+	b := &Blank{}
+	ctx, cancel := context.WithCancel(context.Background())
+	defer cancel()
+	def := c20cfg{A: 1}
+	d, err := dials.Config(ctx, &def, b)
+	zzverif.Assert(err == nil, "C20 Config failed with an empty Blank")
+	if err != nil {
+		return
+	}
+	if zzverif.Choose("variant", 2) == 0 {
+		cctx, ccancel := context.WithCancel(ctx)
+		w := &c20plainWatcher{c20plain: c20plain{a: 5}}
+		e := b.SetSource(cctx, w)
+		zzverif.Assert(e == nil && w.watched && d.View().A == 5, "C20 SetSource of a watching source failed")
+		ccancel() // the SetSource call is over
+		if w.watchCtx != nil {
+			zzverif.Assert(w.watchCtx.Err() == nil, "C20 the inner watcher was started under the SetSource call's context instead of the Blank's watch context (it dies with the call)")
+		}
+		e2 := w.wa.BlockingReportNewValue(ctx, func() reflect.Value {
+			out := reflect.New(w.t.Type()).Elem()
+			x := int64(78)
+			out.FieldByName("A").Set(reflect.ValueOf(&x))
+			return out
+		}())
+		zzverif.Assert(e2 == nil && d.View().A == 78, "C20 an update from the inner watching source did not reach the view")
+		zzverif.Reached("c20-blank-ctx-end")
+		return
+	}
+	b.Done(ctx)
+	zzverif.Quiesce()
+	lctx, lcancel := context.WithCancel(context.Background())
+	go func() { lcancel() }()
+	e := b.SetSource(lctx, &c20plain{a: 9})
+	zzverif.Assert(e != nil, "C20 SetSource after the Blank was done claimed success")
+	zzverif.Assert(d.View().A == 1, "C20 a source set after Done changed the view")
+	zzverif.Reached("c20-blank-late-end")
 }
 
 // ptrTypeOf returns the pointerified type dials handed the Blank (recorded in b.t).
